@@ -23,8 +23,8 @@ import histlib
 from histlib import Site, run_cmd, h60
 
 EXECS_QUICK, EXECS_THOROUGH = 5, 20
-PLAN_QUICK = {"new": 8, "enum": 4, "rest": 4, "map": 5}
-PLAN_THOROUGH = {"new": 90, "enum": 40, "rest": 40, "map": 60}
+PLAN_QUICK = {"new": 5, "enum": 3, "rest": 3, "map": 3}
+PLAN_THOROUGH = {"new": 40, "enum": 20, "rest": 20, "map": 25}
 
 
 # ------------------------------------------------------------------ edits
@@ -374,6 +374,11 @@ def main(run):
     for sub in ("new", "enum", "rest", "map"):
         for _ in range(plan[sub]):
             cases.append(make_case(run.rng, len(cases), sub))
+    import c08
+    for cc in c08.corpus_cases(0):
+        pts = [{"edit": None, "edit_desc": None, "delete": False, "spec": cc.spec},
+               {"edit": None, "edit_desc": None, "delete": False, "spec": cc.spec}]
+        cases.append(Case(len(cases), cc.spec, cc.aio if cc.spec.sub == "map" else cc.perms[0], cc.sel, pts))
     run.log("cases:", len(cases), "points:", sum(len(c.points) for c in cases))
     histlib.pmap(lambda c: execute_case(run, shoot, c, nexec), cases)
     nruns = sum(len(p["execs"]) + 2 for c in cases for p in c.points)
